@@ -16,7 +16,7 @@ import time
 
 VERIF = os.path.dirname(os.path.dirname(os.path.abspath(__file__)))
 BUILD = os.path.join(VERIF, '.build')
-TARGET = os.path.join(BUILD, 'kani-core')
+TARGET = os.environ.get('VERIF_KANI_TARGET', os.path.join(BUILD, 'kani-core'))
 PLAYBACK_TARGET = os.path.join(BUILD, 'kani-playback')
 PLAYBACK_DIR = os.path.join(BUILD, 'playback')
 INCRATE = os.path.join(VERIF, 'kani', 'incrate')
